@@ -56,6 +56,14 @@ var whitelist = []unitSpec{
 		Abstract: dllOrdering},
 	{GoFile: "maps/linkedhashmap/linkedhashmap.go", Module: "LinkedHashMapGen", Skip: map[string]string{"String": skipFmt},
 		Abstract: dllOrdering},
+	// red-black tree wrappers: the tree is an abstract interface (instantiated with the machine's model of it)
+	{GoFile: "maps/treemap/treemap.go", Module: "TreeMapGen", Skip: map[string]string{"String": skipFmt}, Abstract: rbtAbs},
+	{GoFile: "sets/treeset/treeset.go", Module: "TreeSetGen", Skip: map[string]string{"String": skipFmt}, Abstract: rbtAbs},
+	// bidirectional maps: two abstract maps / trees
+	{GoFile: "maps/hashbidimap/hashbidimap.go", Module: "HashBidiMapGen", Skip: map[string]string{"String": skipFmt},
+		Abstract: map[string]absSpec{"forwardMap": hmapSpec, "inverseMap": hmapSpec}},
+	{GoFile: "maps/treebidimap/treebidimap.go", Module: "TreeBidiMapGen", Skip: map[string]string{"String": skipFmt},
+		Abstract: map[string]absSpec{"forwardMap": rbtSpec, "inverseMap": rbtSpec}},
 	{GoFile: "queues/priorityqueue/priorityqueue.go", Module: "PriorityQueueWrapGen",
 		Skip: map[string]string{"String": skipFmt, "New": skipCtor, "NewWith": skipCtor},
 		Abstract: map[string]absSpec{"heap": {Pure: []string{"Peek", "Empty", "Size", "Values"},
@@ -74,3 +82,10 @@ var listAbs = map[string]absSpec{"list": {Pure: listPure, Methods: []string{"Add
 var sllAbs = map[string]absSpec{"list": {Pure: listPure, Methods: []string{"Add", "Append", "Clear", "Empty", "Get", "Prepend", "Remove", "Size", "Values"}}}
 var dllOrdering = map[string]absSpec{"ordering": {Pure: listPure,
 	Methods: []string{"Add", "Append", "Clear", "Get", "IndexOf", "Prepend", "Remove", "Size", "Values", "pkg.New"}}}
+
+var hmapSpec = absSpec{Pure: []string{"Get", "Size", "Empty", "Keys", "Values"},
+	Methods: []string{"Clear", "Empty", "Get", "Keys", "Put", "Remove", "Size", "Values", "pkg.New"}}
+var rbtSpec = rbtAbs["tree"]
+var rbtAbs = map[string]absSpec{"tree": {Pure: []string{"Get", "Size", "Empty", "Keys", "Values", "Left", "Right", "Floor", "Ceiling"},
+	Methods: []string{"Ceiling", "Clear", "Empty", "Floor", "Get", "Keys", "Left", "Put", "Remove", "Right", "Size", "Values",
+		"fld.Comparator", "pkg.New", "pkg.NewWith"}}}
